@@ -1608,6 +1608,10 @@ impl World {
                     self.fail(&["C03"], format!("resize that left {l} elements still pending after {n} key-adding calls"));
                 }
             }
+            // calls that leave the map empty by construction leave it with one table
+            if matches!(op, Op::Clear | Op::Drain { forget: false, .. }) && po.old.is_some() && panic_kind.is_none() {
+                self.fail(&["C03"], format!("after {} the old table is still allocated", kind));
+            }
             if key_adding {
                 if let Some((0, ..)) = po.old {
                     self.fail(&["C03"], "after a key-adding call an old table with nothing left to move is still allocated".into());
